@@ -91,6 +91,13 @@ let handle cmd args =
                (n_of_int (int_of_string count)) (unhex host) (unhex flags) (nat_of_int 256) O with
        | GenOk (n, t) -> "S" ^ hex n ^ " " ^ string_of_int (int_of_nat t)
        | GenTooLong -> "TOOLONG" | GenFuel -> "FUEL")
+  | "main", stdin :: conf_ok :: syntax :: mds ->
+      (* each maildir: "X" = maildir_open failed, else a string over n (no match) d (done) r (reject) e (error); "-" = empty *)
+      let md s = if s = "X" then None else if s = "-" then Some [] else
+        Some (List.init (String.length s) (fun i -> match s.[i] with 'n' -> MNoMatch | 'd' -> MDone | 'r' -> MReject | _ -> MErr)) in
+      (match main false (stdin = "1") (conf_ok = "1") (syntax = "1") (List.map md mds) with
+       | Usage -> "usage"
+       | Exit (s, n) -> string_of_int (int_of_z s) ^ " " ^ string_of_int (int_of_nat n))
   | "io", [a; ver; outs] ->
       let outs = if outs = "-" then [] else List.init (String.length outs) (fun i -> outcome_of_char outs.[i]) in
       let r = replay_action (action_of_string a) (nat_of_int (int_of_string ver)) outs in
